@@ -251,8 +251,24 @@ def parseCorpus (s : String) : List (List Doc) :=
 
 def Doc.field (d : Doc) (f : String) : Option (List String) := if f == "body" then d.body else if f == "title" then d.title else none
 
+/-- `*` = any string, `?` = any char -/
+partial def globChars : List Char → List Char → Bool
+  | [], cs => cs.isEmpty
+  | '*' :: p, cs => globChars p cs || (match cs with
+      | _ :: t => globChars ('*' :: p) t
+      | [] => false)
+  | '?' :: p, _ :: t => globChars p t
+  | c :: p, x :: t => c == x && globChars p t
+  | _, [] => false
+
+/-- the predicate of a multi-term leaf: `P` prefix, `W` wildcard -/
+def multiSat (kind : Char) (pat w : String) : Bool :=
+  if kind == 'P' then w.startsWith pat else globChars pat.toList w.toList
+
 inductive Q where
   | term (field word : String) (boost : F)
+  /-- a prefix (`P`) or wildcard (`W`) query as a clause: a disjunction over the dictionary terms that satisfy it -/
+  | multi (kind : Char) (field pat : String) (boost : F)
   | bool (boost : F) (min : Nat) (musts shoulds nots : List Q)
 
 mutual
@@ -265,7 +281,15 @@ partial def parseQ (cs : List Char) : Option (Q × List Char) :=
     match parseF (String.ofList (r3.take 16)) with
     | some b => some (Q.term (String.ofList fld) (String.ofList wd) b, r3.drop 16)
     | none => none
-  | 'B' :: ',' :: rest =>
+  | k :: ',' :: rest =>
+    if k == 'P' || k == 'W' then
+      let (fld, r1) := rest.span (· != ',')
+      let (pt, r2) := (r1.drop 1).span (· != ',')
+      let r3 := r2.drop 1
+      match parseF (String.ofList (r3.take 16)) with
+      | some b => some (Q.multi k (String.ofList fld) (String.ofList pt) b, r3.drop 16)
+      | none => none
+    else if k != 'B' then none else
     match parseF (String.ofList (rest.take 16)) with
     | none => none
     | some b =>
@@ -298,6 +322,9 @@ end
 partial def qMatches (d : Doc) : Q → Bool
   | .term f w _ => match d.field f with
       | some ws => ws.contains w
+      | none => false
+  | .multi k f p _ => match d.field f with
+      | some ws => ws.any (multiSat k p)
       | none => false
   | .bool _ mn musts shoulds nots =>
       let k := (shoulds.filter (qMatches d)).length
@@ -337,6 +364,8 @@ partial def expectSk (inst : ScoreField F) (docs : List Doc) (d : Doc) : Q → S
       let n := (docs.filter fun x => ((x.field f).getD []).contains w).length
       let avg := @gAvg inst bigN ttf
       Sk.score n bigN (ws.filter (· == w)).length ws.length avg boost
+  | .multi k f p boost =>
+      Sk.sum ((((d.field f).getD []).eraseDups.filter (multiSat k p)).map fun w => expectSk inst docs d (Q.term f w boost))
   | .bool boost _ musts shoulds _ =>
       let mustPart : List Sk :=
         if musts.isEmpty then (if shoulds.isEmpty then [Sk.const 1.0] else [])
@@ -385,6 +414,16 @@ def parseDCorpus (all : Bool) (s : String) : List DDoc :=
         | [id, bo, ti] => docs.filter (·.id != id) ++ [{ id := id, fields := dFields all id bo ti }]
         | _ => docs) docs) []
 
+/-- every token the field ever received (deleted and replaced documents included: their terms stay in the dictionaries
+of the unmerged segments) -/
+def everTokens (field corpus : String) : List String :=
+  ((s!"{corpus}".splitOn "/").flatMap fun b =>
+    if b == "@q" then [] else
+    (b.splitOn ";").flatMap fun e =>
+      if e.startsWith "!" then [] else match e.splitOn ":" with
+        | [id, bo, ti] => ((dFields false id bo ti).filter (·.name == field)).flatMap (·.tokens)
+        | _ => []).eraseDups
+
 def cfgOf (s : String) : List (String × String) :=
   (s.splitOn ",").filterMap fun p => match p.splitOn "=" with
     | [k, v] => some (k, v)
@@ -408,6 +447,7 @@ def parseSegs (s : String) : Option (List (String × List SegStat × List Nat)) 
 
 partial def qMatchesD (d : DDoc) : Q → Bool
   | .term f w _ => termFreq d.fields f w ≥ 1
+  | .multi k f p _ => ((d.fields.filter (·.name == f)).flatMap (·.tokens)).any (multiSat k p)
   | .bool _ mn musts shoulds nots =>
       let k := (shoulds.filter (qMatchesD d)).length
       !(shoulds.isEmpty && mn > 0) &&
@@ -425,6 +465,10 @@ partial def expectSkD (segTab : List (String × List SegStat × List Nat)) (docs
         | some e => docCountOf e.2.1
         | none => 0
       Sk.score n bigN (termFreq d.fields f w) (fieldLength d.fields f) 0.0 boost
+  | .multi k f p boost =>
+      -- one constituent per DISTINCT token of the document that satisfies the predicate, each built with the leaf's boost
+      Sk.sum ((((d.fields.filter (·.name == f)).flatMap (·.tokens)).eraseDups.filter (multiSat k p)).map fun w =>
+        expectSkD segTab docs d (Q.term f w boost))
   | .bool boost _ musts shoulds _ =>
       let mustPart : List Sk :=
         if musts.isEmpty then (if shoulds.isEmpty then [Sk.const 1.0] else [])
@@ -864,6 +908,21 @@ def c17step (_ : Unit) (op : String) (impl : String) : Unit × String :=
               (if (kv.lookup "dir") == some "fs" then ["d-fs"] else ["d-mem"]) ++
               (if (kv.lookup "mg") == some "1" then ["d-merging"] else ["d-no-merging"]) ++
               (if (scoreNodes t).isEmpty then ["d-hit-constant-only"] else ["d-hit-scored"])
+            -- a disjunction of more than DisjunctionHeapTakeover = 10 searchers (11+ should clauses, or a prefix / wildcard clause
+            -- expanding to 11+ dictionary terms) that a must clause drives with Advance past a pending candidate: some earlier
+            -- live document matches the disjunction but not the must clauses
+            let heapBr : List String := match parseQ query.toList with
+              | some (Q.bool _ _ musts shoulds _, []) =>
+                if musts.isEmpty then [] else
+                let before := docs.takeWhile (·.id != docid)
+                let mustOk (x : DDoc) : Bool := musts.all (qMatchesD x)
+                let gapFor (pred : DDoc → Bool) : Bool := before.any fun x => !(mustOk x) && pred x
+                (if shoulds.length ≥ 11 && gapFor (fun x => shoulds.any (qMatchesD x)) then ["heap-disjunction-under-must"] else []) ++
+                (if (musts ++ shoulds).any (fun c => match c with
+                    | .multi k f p _ => decide (((everTokens f corpus).filter (multiSat k p)).length ≥ 11) && gapFor (fun x => qMatchesD x c)
+                    | _ => false) then ["heap-multi-term-under-must"] else [])
+              | _ => []
+            let segBr := segBr ++ heapBr
             (m, verdictOf (m == impl) (rootFail ++ fails ++ simFail ++ segFail ++ nodeFail' ++ partFail) (ulpBranch (logUlp t) :: brs ++ partBr ++ segBr))
           | _, _, _ => ("unparsable-tree", "ok")
         | _ => ("unparsable-result", "ok")
